@@ -38,4 +38,24 @@ MCAddNamesPath == {"c0"}
 \* probe-template route (simulation): the ASCII alphabets plus one non-ASCII prefix / name and the path-order package name
 MCPrefixesS == MCPrefixes \cup {"gQf6Q", "c", "rp"}
 MCAddNamesS == MCAddNames4 \cup {"gQf6Q1", "Q43aQ"}
+\* variable alphabet (AddVar / ResolveVariableNameCollisions histories): a variable named like a package that a
+\* LATER variable's type imports (name first, colliding qualifier later), like a name registered afterwards by
+\* AddName (r0 / type parameter), like the in-package type "T" of a later variable; two same-named packages
+MCVarNamesV == {"io", "T"}
+MCPkgsV == {[name |-> "io", path |-> "x/io"], [name |-> "io", path |-> "y/io"]}
+MCVarPkgsV == MCPkgsV \cup {NoPkg}
+\* (the vars world offers no registry-only operations: AddImport / PkgQualifier histories are the other alphabets';
+\* here packages enter the file through the types of the variables)
+MCPkgsNone == {}
+MCPrefixesV == {"io"}
+MCAddNamesV == {"io", "T"}
+\* import-path look-alikes: a vendored form of another path, a path that is a "/"-suffix / prefix of another, an
+\* internal/ path, a trailing major-version element, dotted / hyphenated last elements (the package name differs
+\* from the last path element) -- all with coinciding package names
+MCPkgsLook == {[name |-> "errors", path |-> "a/vendor/p/errors"], [name |-> "errors", path |-> "p/errors"],
+               [name |-> "errors", path |-> "errors"], [name |-> "errors", path |-> "p/errors/v2"],
+               [name |-> "errors", path |-> "a/internal/errors"],
+               [name |-> "foo", path |-> "x/go-foo"], [name |-> "foo", path |-> "x/foo.v1"]}
+MCPrefixesLook == {"errors"}
+MCAddNamesLook == {"foo0"}
 ====
